@@ -101,6 +101,17 @@ def matrix(tier):
         yield {"profile": "dot", "ops": ops, "opts": oi, "cell": ["scopes", oi]}
         # the same without the document-level declarations (the sibling bundle's element is then the only declaration)
         yield {"profile": "dot", "ops": ops[:8], "opts": oi, "cell": ["scopes-bundles-only", oi]}
+        # nothing identified at the document level (nothing at all / one anonymous relation); a bundle describes one
+        # identifier in two statements: still one node per unified element record
+        dup = [["ns", 0, "ex", "http://a/"], ["bundle", n("b1"), "bundle"],
+               ["rec", 1, "entity", n("report"), {}, [[n("version"), {"k": "int", "v": 1}]], "factory"],
+               ["rec", 1, "entity", n("report"), {}, [[n("status"), {"k": "str", "v": "draft"}]], "factory"],
+               ["rec", 1, "activity", n("act"), {}, [], "factory"],
+               ["rec", 1, "activity", n("act"), {}, [[n("k"), {"k": "str", "v": "again"}]], "factory"],
+               ["rec", 1, "generation", None, {"entity": {"name": n("report")}, "activity": {"name": n("act")}}, [], "factory"]]
+        yield {"profile": "dot", "ops": dup, "opts": oi, "cell": ["duplicates-in-bundle-empty-top", oi]}
+        yield {"profile": "dot", "ops": dup + [["rec", 0, "specialization", None, {"specificEntity": {"name": n("report")}, "generalEntity": {"name": n("general")}}, [], "factory"]],
+               "opts": oi, "cell": ["duplicates-in-bundle-anonymous-top", oi]}
 
 
 def _it(b, **kw):
@@ -169,6 +180,7 @@ def check(case, ctx):
     exp_elements = {}
     exp_paths = Counter()
     referenced = set()
+    mentioned = set()       # names any relation refers to, also one-ended relations (the library may draw a node for them)
     all_rows = Counter()
     must_rows = Counter()
     hostile = {"identifier": False, "label": False, "value": False}
@@ -200,6 +212,7 @@ def check(case, ctx):
                 vals.setdefault(a.uri, v)
             v1 = vals.get(spec.PROV_NS + fargs[0][0])
             v2 = vals.get(spec.PROV_NS + fargs[1][0]) if fargs[1][1] == "ref" else None
+            mentioned.update(v.uri for a, v in attrs if a.uri in formal_uris and hasattr(v, "uri"))
             if v1 is None or v2 is None:
                 continue
             n_rel += 1
@@ -273,7 +286,7 @@ def check(case, ctx):
             elif have.get(uri, 0) < n:
                 items.append(_it("element_node_missing_in_its_cluster", uri=uri, bundle=cu, want=n, got=have.get(uri, 0)))
         for uri, n in total_nodes.items():
-            if uri in total_expected and n > total_expected[uri] and uri not in referenced and cu is None:
+            if uri in total_expected and n > total_expected[uri] and uri not in referenced and uri not in mentioned and cu is None:
                 items.append(_it("element_node_duplicated", uri=uri))
     all_urls = Counter()
     for c_ in got.values():
